@@ -573,6 +573,7 @@ func cmdReplay(args []string) int {
 	obsIn := fs.String("obs", "", "ndjson of observations per live state (for behaviours without obs)")
 	out := fs.String("out", "", "result json")
 	par := fs.Int("par", 8, "parallel engines")
+	progress := fs.String("progress", "", "with -par 1: file that always holds the index of the behaviour being executed")
 	_ = fs.Parse(args)
 
 	table := map[string]*obs{}
@@ -620,6 +621,9 @@ func cmdReplay(args []string) int {
 					return
 				}
 				b := behs[i]
+				if *progress != "" {
+					_ = os.WriteFile(*progress, []byte(fmt.Sprint(i)), 0o644)
+				}
 				o := b.Obs
 				if o == nil {
 					o = table[liveKey(b.Live)]
@@ -1543,7 +1547,8 @@ func cmdRerun(args []string) int {
 }
 
 func main() {
-	slog.SetDefault(slog.New(slog.NewTextHandler(io.Discard, nil)))
+	// the engine logs through slog; warnings and errors (e.g. what Pebble says before it exits the process) go to stderr
+	slog.SetDefault(slog.New(slog.NewTextHandler(os.Stderr, &slog.HandlerOptions{Level: slog.LevelWarn})))
 	if len(os.Args) < 2 {
 		fmt.Fprintln(os.Stderr, "usage: kvorder table|replay|drive|rerun ...")
 		os.Exit(2)
